@@ -12,7 +12,9 @@ PROP = "C06"
 RULE = ("random sequences of declare / gate / measure-statement / measure-expression / measure-array / "
         "reset over <= 6 qubits, each qubit named through a random path (variable, array element with "
         "constant or computed index, function / @quantum function / method parameter, object field, "
-        "field of a field, recycled index), misuse deliberately included (profile 'flags'); thorough adds "
+        "field of a field, recycled index), misuse deliberately included (profile 'flags', and 'flags_recycle' "
+        "which destroys objects owning several qubits and re-declares qubits on the freed indices before the "
+        "misuse); thorough adds "
         "all sequences of length <= 4 over 2 qubits x {h, measure, reset} x 3 naming paths. Expected: "
         "exit 0 iff the model never operates on a measured qubit, else exit 1 with 'Runtime error at Ln L' "
         "where L is the line of the first offending built-in call, and no traced simulator operation for "
@@ -37,6 +39,8 @@ def judge(ctx, case, src, res):
                           (cls[2], cls[4]), case, files)
         return
     ctx.count("expected_to_stop")
+    if stop.reason.startswith("destructor"):
+        ctx.count("expected_to_stop_inside_a_destructor")
     if cls[0] == "ok":
         return  # already reported by check_case as flag:op-not-refused
     if cls[0] != "diag" or cls[1] != "Runtime":
@@ -98,6 +102,7 @@ def run(ctx):
     n = ctx.n(800, 20000)
     # every third program runs as two shots: all but the last shot execute with QASM logging off
     cases = [dict(profile="flags", index=i, shots=(2 if i % 3 == 0 else 0)) for i in range(n)]
+    cases += [dict(profile="flags_recycle", index=i, shots=(2 if i % 4 == 0 else 0)) for i in range(n // 2)]
 
     def one(case):
         res = qlang.check_case(ctx, "C06", binary, case, report_props={"C06", "HARNESS"})
